@@ -1,4 +1,5 @@
 import PyrexVerif.D.Detector
+import PyrexVerif.Proofs.DetectorTrig
 /-!
 # C19 — detector composition visits every antenna once; triggers and clears as the union
 
@@ -134,15 +135,8 @@ theorem C19_accepts_below_surface (a b : Node) (hd : isDetector a = true ∨ isD
 
 /-! ### triggers -/
 
-/-- a tree in which every detector uses the default any-antenna trigger (it accepts `**kwargs`) -/
-def allDefault : Node → Bool
-  | .ant _ => true
-  | .lst _ => true
-  | .det _ s _ st => st && allDefaultL s
-  | .comb s => allDefaultL s
-where allDefaultL : List Node → Bool
-  | [] => true
-  | n :: r => allDefault n && allDefaultL r
+-- `allDefault n`: every detector in the tree keeps the default any-antenna trigger (it accepts `**kwargs`);
+-- defined in `Proofs/DetectorTrig.lean`.
 
 mutual
 private theorem trig_any (mc : Bool) : (n : Node) → allDefault n = true →
@@ -198,6 +192,18 @@ theorem C19_clear_all (n : Node) :
       rw [trig_any mc _ hd, clear_flat]
       simp [hitOf, clearAnt]
     · right; simpa using hd
+
+/-- the statement-by-statement model of `CombinedDetector.triggered` that the driver runs against the
+real code (`Det.trig`: keyword forwarding, `TypeError` propagation, retry loop, short-circuit) returns,
+for every nesting of default-trigger detectors and every keyword set, exactly the any-antenna-hit
+answer — unless the driver's recursion fuel ran out, which it reports instead of an answer. -/
+theorem C19_exact_trigger_is_any_hit (fuel : Nat) (n : Node) (kw : List String) (mc : Bool)
+    (hd : allDefault n = true) (hdet : isDetector n = true) :
+    (trig fuel n kw mc).1 = .fuel ∨
+    (trig fuel n kw mc).1 = .ok ((flatten n).any (hitOf (mc && kw.contains rmt))) := by
+  have h := (trig_agrees fuel).1 n kw mc hd hdet
+  rw [trig_any _ n hd] at h
+  exact h
 
 /-! ### keyword stripping -/
 
@@ -279,3 +285,5 @@ example : trig 100 (.comb [d1, d2]) [rmt, "thr"] true =
     (.ok true, [(1, ["thr", rmt]), (2, [rmt])]) := by decide
 example : buildRoute [["antenna_class", "p"], ["antenna_class", "q"]] ["antenna_class", "q", "z"] =
     some [["antenna_class"], ["antenna_class", "q"]] := by decide
+example : allDefault (.comb [d1, .lst [a3]]) = true ∧
+    (trig 50 (.comb [d1, .lst [a3]]) [rmt, "x"] true).1 = .ok true := by decide
